@@ -47,7 +47,7 @@ func (e *Exec) argInt(v Value) int64 {
 }
 
 // intrinsic intercepts harness primitives and modelled library functions.
-func (e *Exec) intrinsic(st *State, fn *ssa.Function, args []Value, callSite string) ([]Outcome, bool) {
+func (e *Exec) intrinsic(st *State, fn *ssa.Function, args []Value, callSite ssa.Instruction) ([]Outcome, bool) {
 	c := e.ctx
 	name := fn.Name()
 	if fn.Pkg != nil && strings.HasPrefix(name, "vf") && fn.Signature.Recv() == nil {
@@ -111,7 +111,7 @@ func (e *Exec) intrinsic(st *State, fn *ssa.Function, args []Value, callSite str
 			if cond.IsTrue() {
 				return ret(st, nil), true
 			}
-			pi := &PanicInfo{Kind: "assert", Msg: label, Site: callSite}
+			pi := &PanicInfo{Kind: "assert", Msg: label, in: callSite}
 			if cond.IsFalse() {
 				return []Outcome{{kind: OPanic, st: st, pinfo: pi}}, true
 			}
@@ -169,6 +169,16 @@ func (e *Exec) intrinsic(st *State, fn *ssa.Function, args []Value, callSite str
 			r := c.UF(fmt.Sprintf("%s_%d", nm, len(ts)), BV(64), ts...)
 			st.draws = append(st.draws, Draw{Name: nm, T: r, Kind: "uf", Args: ts})
 			return ret(st, r), true
+		case "vfAnd":
+			return ret(st, c.And(args[0].(*Term), args[1].(*Term))), true
+		case "vfOr":
+			return ret(st, c.Or(args[0].(*Term), args[1].(*Term))), true
+		case "vfNot":
+			return ret(st, c.Not(args[0].(*Term))), true
+		case "vfImplies":
+			return ret(st, c.Implies(args[0].(*Term), args[1].(*Term))), true
+		case "vfIteInt", "vfIteU32", "vfIteBool":
+			return ret(st, c.Ite(args[0].(*Term), args[1].(*Term), args[2].(*Term))), true
 		case "vfThorough":
 			return ret(st, c.Bool(e.cfg.Thorough)), true
 		case "vfObserve":
@@ -177,7 +187,9 @@ func (e *Exec) intrinsic(st *State, fn *ssa.Function, args []Value, callSite str
 			return ret(st, nil), true
 		case "vfConcrete":
 			// vfConcrete(x int) int: fork over all feasible values of x (must be few)
-			return e.concretize(st, args[0].(*Term)), true
+			return e.concretize(st, args[0].(*Term), 64), true
+		case "vfConcreteN":
+			return e.concretize(st, args[0].(*Term), 1<<16), true
 		}
 		// other vf* helpers are ordinary Go code in the shim
 		return nil, false
@@ -217,6 +229,11 @@ func (e *Exec) intrinsic(st *State, fn *ssa.Function, args []Value, callSite str
 	case "internal/bytealg.Equal":
 		a, b := e.bytesToStr(st, args[0].(*SliceV)), e.bytesToStr(st, args[1].(*SliceV))
 		return ret(st, e.strEq(a, b)), true
+	case "unicode.Is":
+		if t, ok := args[1].(*Term); ok && !t.IsConst() {
+			return ret(st, e.unicodeIs(st, args[0].(*PtrV), t)), true
+		}
+		return nil, false
 	case "math/bits.OnesCount64", "math/bits.OnesCount32", "math/bits.OnesCount16", "math/bits.OnesCount8", "math/bits.OnesCount":
 		return ret(st, e.popcountTerm(args[0].(*Term))), true
 	case "math/bits.TrailingZeros32", "math/bits.TrailingZeros64", "math/bits.TrailingZeros":
@@ -231,13 +248,13 @@ func (e *Exec) intrinsic(st *State, fn *ssa.Function, args []Value, callSite str
 }
 
 // concretize forks over every feasible value of t (bounded by 64 values).
-func (e *Exec) concretize(st *State, t *Term) []Outcome {
+func (e *Exec) concretize(st *State, t *Term, limit int) []Outcome {
 	if t.IsConst() {
 		return ret(st, t)
 	}
 	var outs []Outcome
 	cur := st
-	for i := 0; i < 64; i++ {
+	for i := 0; i < limit; i++ {
 		if e.sol.Check(cur.pc, nil, e.cfg.FeasMs*5) != "sat" {
 			if i == 0 {
 				panic(unsupported("concretize: solver did not answer sat"))
@@ -254,7 +271,7 @@ func (e *Exec) concretize(st *State, t *Term) []Outcome {
 		outs = append(outs, Outcome{kind: OReturn, st: s, val: k})
 		cur.assume(e.ctx.Not(e.ctx.Eq(t, k)))
 	}
-	panic(unsupported("concretize: more than 64 values"))
+	panic(unsupported("concretize: too many values"))
 }
 
 func (e *Exec) opaqueError(st *State, msg string) Value {
@@ -776,4 +793,100 @@ func (e *Exec) mathConcrete(name string, args []Value) Value {
 		xs[i] = fbits(t)
 	}
 	return e.ctx.F64Const(mathFn(name, xs))
+}
+
+// unicodeIs encodes unicode.Is(table, r) for a symbolic rune and a concrete table as the
+// disjunction of the table's ranges (with stride).
+func (e *Exec) unicodeIs(st *State, tab *PtrV, r *Term) *Term {
+	c := e.ctx
+	if isNilPtr(tab) {
+		panic(unsupported("unicode.Is(nil table)"))
+	}
+	tv := e.load(st, tab).(*StructV) // {R16 []Range16, R32 []Range32, LatinOffset int}
+	res := c.False
+	ru := r // 32-bit, compare unsigned as the library does (negative runes are never members)
+	add := func(sl *SliceV, w int) {
+		if sl.Base == nil {
+			return
+		}
+		n := int(e.argInt(sl.Len))
+		for i := 0; i < n; i++ {
+			rg := e.load(st, e.sliceElemPtr(sl, c.BVConst(uint64(i), 64))).(*StructV)
+			lo, hi, stride := rg.F[0].(*Term), rg.F[1].(*Term), rg.F[2].(*Term)
+			if !lo.IsConst() || !hi.IsConst() || !stride.IsConst() {
+				panic(unsupported("unicode.Is on a non-constant table"))
+			}
+			l32, h32 := c.BVConst(lo.val, 32), c.BVConst(hi.val, 32)
+			in := c.And(c.BvBin(OpUle, l32, ru), c.BvBin(OpUle, ru, h32))
+			if stride.val > 1 {
+				d := c.BvBin(OpSub, ru, l32)
+				in = c.And(in, c.Eq(c.BvBin(OpURem, d, c.BVConst(stride.val, 32)), c.BVConst(0, 32)))
+			}
+			res = c.Or(res, in)
+		}
+	}
+	add(tv.F[0].(*SliceV), 16)
+	add(tv.F[1].(*SliceV), 32)
+	return res
+}
+
+// lookupFork handles m[k] for a symbolic key over a large map whose keys are all concrete by
+// forking on "k == key_i" per entry (plus the miss case): every continuation sees a concrete value.
+func (e *Exec) lookupFork(st *State, fr *Frame, x *ssa.Lookup) ([]contAlt, bool) {
+	m, ok := e.eval(st, fr, x.X).(*MapV)
+	if !ok || m.Obj == nil {
+		return nil, false
+	}
+	k := e.eval(st, fr, x.Index)
+	if _, conc := e.keyEnc(k); conc {
+		return nil, false
+	}
+	md := e.mapData(st, m)
+	if len(md.Entries) <= 8 || md.nSym() != 0 {
+		return nil, false
+	}
+	mt := x.X.Type().Underlying().(*types.Map)
+	var alts []contAlt
+	cur, curFr := st, fr
+	set := func(s *State, f *Frame, v Value, found bool) {
+		if x.CommaOk {
+			e.setReg(f, x, &StructV{F: []Value{v, e.ctx.Bool(found)}})
+		} else {
+			e.setReg(f, x, v)
+		}
+		alts = append(alts, contAlt{s, f})
+	}
+	// keys are concrete and pairwise distinct (index mode), so each hit needs only "k == key_i";
+	// the miss case is the single conjunct "k differs from every key".
+	miss := e.ctx.True
+	var hits []MapEntry
+	var eqs []*Term
+	for _, en := range md.Entries {
+		if !en.Alive.IsTrue() {
+			if en.Alive.IsFalse() {
+				continue
+			}
+			return nil, false
+		}
+		eq := e.valueEq(en.K, k)
+		if eq.IsFalse() {
+			continue
+		}
+		hits = append(hits, en)
+		eqs = append(eqs, eq)
+		miss = e.ctx.And(miss, e.ctx.Not(eq))
+	}
+	for i, en := range hits {
+		if e.check(cur, eqs[i]) == "unsat" {
+			continue
+		}
+		hit := e.fork(cur)
+		hit.assume(eqs[i])
+		set(hit, curFr.clone(), copyAgg(en.V, 0), true)
+	}
+	if e.check(cur, miss) != "unsat" {
+		cur.assume(miss)
+		set(cur, curFr, e.zero(mt.Elem()), false)
+	}
+	return alts, true
 }
